@@ -71,7 +71,7 @@ def run(module, cfg, *, workers=1, env=None, simulate=None, depth=None, seed=Non
     if own:
         scratch = tempfile.mkdtemp(prefix="vf-tlc-")
     meta = os.path.join(scratch, "meta-%d" % (time.time_ns() % 10**9))
-    props = ["-Djava.io.tmpdir=" + scratch]      # TLC's own temp directories go with the scratch directory
+    props = []
     if dfs:
         props.append("-Dtlc2.tool.queue.IStateQueue=StateDeque")
     cmd = java_cmd(heap, props, serial_gc=(workers == 1))
